@@ -92,6 +92,13 @@ def compile_rust(name, source, cfg, side=None, files=None):
             b.side = json.load(open(os.path.join(d, 'side.json')))
         return b
     os.makedirs(d, exist_ok=True)
+    # several worker processes may want the same program: one compiles, the others wait for it
+    import fcntl
+    lockf = open(d + '.lock', 'w')
+    fcntl.flock(lockf, fcntl.LOCK_EX)
+    if os.path.exists(okf) and os.path.exists(out):
+        lockf.close()
+        return b
     with open(b.src, 'w') as f:
         f.write(source)
     for rel, content in (files or {}).items():
@@ -109,6 +116,7 @@ def compile_rust(name, source, cfg, side=None, files=None):
         sys.stderr.write(r.stdout[-4000:])
         raise RuntimeError(f'generated program failed to compile: {b.src} ({" ".join(cmd)})')
     open(okf, 'w').write(' '.join(cmd))
+    lockf.close()
     return b
 
 
